@@ -3,6 +3,7 @@ package main
 // C02 Bind parameters are exactly what the route pattern captured.
 
 import (
+	"fmt"
 	"go/token"
 	"go/types"
 	"strings"
@@ -238,6 +239,15 @@ func checkC02(c *Check) {
 				}
 			})
 			c.Cond(okSame && retOK, key+":same-map", p.FuncPos(m), "the map filled by the matcher is the one decoded and returned", "Match decodes or returns a different map than the matcher filled")
+			// every success return lies behind the decode loop (no shortcut around it)
+			allInstrs(m, func(in ssa.Instruction) {
+				r, ok := in.(*ssa.Return)
+				if !ok || len(r.Results) != 3 || vConstBool(false)(r.Results[2]) {
+					return
+				}
+				okP, path := mustPrecede(m, func(x ssa.Instruction) bool { return x == ssa.Instruction(next) }, in)
+				c.Cond(okP, key+":behind-loop", p.Pos(in.Pos()), "a success return of Match is reached only through the decode loop", "Match can report a match without running the decode loop: captured values reach the handlers undecoded "+path)
+			})
 		}
 	}
 	if m := p.Meth("route", "baseTree", "Match"); m != nil {
@@ -271,6 +281,19 @@ func checkC02(c *Check) {
 		_, isMM := strip(v).(*ssa.MakeMap)
 		return isMM || vExtract(1, vCall("(route.Tree).Match"))(v)
 	})
+
+	// ---- R9 matching reads the routing structures, it never writes them
+	c.Rule("R9", "E5 effects over the closure of Tree.Match", "no function reachable from Match writes tree, leaf, segment or matcher state (stores, map writes, appends onto stored slices): the bind lists and tables that pair names with captures are the ones built at registration for every request", 1)
+	if m := p.Meth("route", "baseTree", "Match"); m != nil {
+		fns := p.ReachFrom(m)
+		fs := runEffects(fns, p.effectConfig())
+		for _, f := range fs {
+			c.Bad(p.FuncKey(f.Fn)+":"+f.Kind, p.Pos(f.Instr.Pos()), f.What+" while matching: the tables that pair bind names with captures change between requests, so a later request's values land under other names or disappear")
+		}
+		if len(fs) == 0 {
+			c.OK("Match:read-only", p.FuncPos(m), fmt.Sprintf("%d functions reachable from Match analysed; none writes shared routing state", len(fns)), len(fns))
+		}
+	}
 
 	// ---- R6 `route` parameter on both dispatch paths
 	c.Rule("R6", "E6 sibling agreement", "on both dispatch paths the params handed to the handler hold \"route\" = Route() of the very leaf whose Handler() is invoked", 2)
